@@ -53,6 +53,15 @@ claim('C07', 'model-based generation of append/query histories (Hypothesis, shri
       'all histories of length<=4 (1 wire) / <=3 (2 wires) are enumerated; the group-level statements are decided completely for n=1 and (thorough) n=2.',
       'trusted: vf/ref.py embed and Pauli algebra; F2 convention decided by C08; Sp(2n,F2) elements from spf2.from_int_tuple (C09), re-verified symplectic')
 
+claim('C01', 'Hypothesis over a table of all trivialization maps x field x dim x rank x dtype x backend x batch shape x scale x theta pattern; oracle: the defining constraints in complex128, module == functional, batched == per-sample, numpy == torch',
+      'Every functional map and every nn.Module option (incl. class-only objects: SO-slices of Stiefel, SeparableDensityMatrix, QuantumChannel 6 methods x kraus/choi, weighted simplex, ABk Hermitian spaces) '
+      'is evaluated at generated parameter points up to the stated conditioning bound and judged against its manifold constraints; sampling, not exhaustive.',
+      'trusted: numpy linear algebra for the constraints; ill-conditioned theta for polar/qr/choleskyL (cond>1e3, 30 in float32) are skipped and counted; tolerances 1e-9 (float64), 2e-3 (float32)')
+claim('C02', 'enumeration of the finite configuration lattice x generated generic points; oracle: autograd Jacobian singular values vs textbook manifold dimension (rank lower-semicontinuity argument)',
+      'For every map/option/field/dim/rank configuration (all with dim<=3 + a seed-dependent third of the rest in quick, all up to dim 6 in thorough) the Jacobian rank at up to 5 generic points '
+      'is compared with the manifold dimension; one full-rank point decides the configuration.',
+      'trusted: torch autograd of the float64 maps, numpy SVD, relative gap criterion 1e-9 with gap>=1e5')
+
 NOT_YET = 'check not built yet in this session (work in progress; see DESIGN.md section 4 for the planned generator and oracle)'
 
 ALL = [f'C{i:02d}' for i in range(1, 21)]
